@@ -17,6 +17,13 @@ def gen_world_desc(rng, nlooms=(1, 2), ncpus=(1, 4), nprocs=(1, 2), nthreads=(1,
                    marks=None, skews=False):
     looms = []
     nl = rng.randint(*nlooms)
+    # swarm: a few worlds are much bigger than usual (many threads per process, many CPUs, many looms)
+    crowd = rng.chance(4)
+    if crowd:
+        nthreads = (nthreads[0], max(nthreads[1], rng.choice([6, 12, 24])))
+        ncpus = (ncpus[0], max(ncpus[1], rng.choice([8, 16, 40])))
+        if nlooms[1] > 1:
+            nl = rng.randint(nl, 6)
     use_rank = rng.chance(30) if ranks is None else ranks
     rank = 0
     pid = 100 + rng.below(50)
@@ -25,9 +32,13 @@ def gen_world_desc(rng, nlooms=(1, 2), ncpus=(1, 4), nprocs=(1, 2), nthreads=(1,
     wild = rng.chance(40)
     used_ids = set()
 
+    huge = wild and rng.chance(35)
+
     def wild_id():
         while True:
             x = rng.choice([rng.randint(1, 9), rng.randint(10, 99), rng.randint(100, 999), rng.randint(1000, 99999)])
+            if huge and rng.chance(50):
+                x = rng.choice([2 ** 31 - 1, 2 ** 31 - 2, 2 ** 30, 65535, 65536, 2 ** 24 + 1, 4194304, 32768, 32767]) - rng.below(3)
             if x not in used_ids:
                 used_ids.add(x)
                 return x
@@ -35,7 +46,10 @@ def gen_world_desc(rng, nlooms=(1, 2), ncpus=(1, 4), nprocs=(1, 2), nthreads=(1,
     allprocs = []
     for li in range(nl):
         nc = rng.randint(*ncpus)
-        phy = sorted(rng.sample(range(0, 16), nc))
+        phy = sorted(rng.sample(range(0, max(16, 2 * nc)), nc))
+        if rng.chance(10):
+            # sparse, large physical ids
+            phy = sorted(rng.sample([0, 1, 63, 64, 255, 256, 1023, 4095, 65535, 2 ** 20, 2 ** 31 - 1] + list(range(2, 60)), nc))
         if rng.chance(50):
             rng.shuffle(phy)
         procs = []
@@ -121,6 +135,10 @@ class Gen:
         k = {"w_state": 20, "w_aff": 10, "w_region": 30, "w_task": 0, "w_mark": 0, "w_flush": 2,
              "w_filler": 5, "w_kernel": 0, "w_idle": 4, "maxdepth": 6, "tight": 40, "p_vcpu": 15}
         k.update(knobs or {})
+        if "big_ids" not in k:
+            k["big_ids"] = rng.chance(12)
+        if "many_tasks" not in k:
+            k["many_tasks"] = rng.chance(6)
         self.k = k
         self.faults = {}
         self.probes = {}
@@ -339,6 +357,8 @@ class Gen:
         r = self.rng
         if mt["labels"] and r.chance(60):
             return r.choice(sorted(mt["labels"]))
+        if r.chance(8):
+            return r.choice([-1, -2 ** 31, 2 ** 31, 2 ** 32, 2 ** 40 + 3, 2 ** 62, -2 ** 62])
         return 1 + r.below(1000)
 
     # -- tasks
@@ -359,10 +379,11 @@ class Gen:
         ss = th.chan[(m, "CH_SUBSYSTEM")]
         body_label = W.TASK_BODY_LABEL[m]
         opts = []
-        if len(types) < 3:
+        maxtypes, maxtasks = (40, 300) if self.k.get("many_tasks") else (3, 6)
+        if len(types) < maxtypes:
             opts.append(("type", 3 if not types else 1))
-        if types and len(tasks) < 6:
-            opts.append(("create", 4 if len(tasks) < 2 else 1))
+        if types and len(tasks) < maxtasks:
+            opts.append(("create", 4 if len(tasks) < 2 else (3 if self.k.get("many_tasks") else 1)))
         if top is not None and top.state == "running" and ss and ss[-1] == body_label:
             opts.append(("end", 4))
             if "pause" in top.task.flags and not self.k.get("pause_needs_region"):
@@ -387,7 +408,11 @@ class Gen:
             key = (id(p), m)
             n = self.typectr.get(key, 0) + 1
             self.typectr[key] = n
-            label = r.choice(["", "kernel%d" % n, "solve %d" % n, "t%d" % r.below(3)])
+            if self.k.get("big_ids") and r.chance(40):
+                n = r.choice([2 ** 32 - 1, 2 ** 31, 2 ** 31 - 1, 65536 + n, 2 ** 24 + n])
+                while n in types:
+                    n -= 1
+            label = r.choice(["", "kernel%d" % n, "solve %d" % n, "t%d" % r.below(3), "x" * r.choice([1, 100, 400]) + str(n)])
             existing = set(types.values())
             shown = label if label else "(unlabeled task type %d)" % n
             if shown in existing:
@@ -397,6 +422,10 @@ class Gen:
             key = (id(p), m)
             n = self.taskctr.get(key, 0) + 1
             self.taskctr[key] = n
+            if self.k.get("big_ids") and r.chance(40):
+                n = r.choice([2 ** 32 - 1, 2 ** 31, 2 ** 31 - 1, 2 ** 16 + n, 2 ** 24 + n])
+                while n in tasks:
+                    n -= 1
             ty = r.choice(sorted(types))
             v = "c"
             if m == "nosv" and r.chance(35):
